@@ -221,6 +221,8 @@ def describe(e):
         steps = -((off) // rb) if off < 0 else 0  # ceil(-off / rb)
         key += " rb=%d ab=%d cross=%d unn=%d gap=%d k0=%d over=%d" % (
             rb, ab, int(rb != ab), int(unn), int(steps > e["rs"]), int(k == 0), int(op.endswith("_assign") and steps > e["rs"]))
+        if rb != ab and off < 0:
+            key += " neg=1"       # cross-radix with a negative (right-shifting) offset: the path of F-C08-cross-radix-rounding
     if odd:
         key += " odd=" + ",".join(odd)
     if e.get("frame_bad"):
